@@ -3,15 +3,26 @@
 `run_std(ctx, elk)` parses the method signatures of /repo/headers/*.elh, and for the receiver
 families Int, Float, String, Char, ArrayList, HashMap, the eight range classes and Regex builds
 one-call programs whose receiver and arguments are BOUNDARY values of the declared parameter
-types.  Every program is a single call inside `do ... catch e ... end`, so any Elk-level error
-is fine; what gates is the host process dying: Go `panic:`, Go `fatal error:` (other than a
-clean out-of-memory under the address-space limit the stream sets), or death by signal.
+types.  Every call sits inside its own `do ... catch e ... end`, so any Elk-level error is fine;
+what gates is the host process dying: Go `panic:`, Go `fatal error:` (other than a clean
+out-of-memory under the address-space limit the stream sets), or death by signal.
 
 Call source (what is reported as `case`, what the corpus file holds) = a `;`-separated
 statement sequence on one line, e.g. `(1) << (4611686018427387904)` or
 `v0 := "ab"; v1 := 2; v0 * v1`.  The last statement is the call; when it has a value it is
 bound to `r` and `r.inspect` is printed (so a native that returns a value of another class
 than the header promises is exercised too).
+
+Failure keys (seed-stable classes): `std:<Receiver>#<method>:<panic site>` with panic site = first
+elk frame after the runtime panic frames (`value.String.RepeatSmallInt`, `vm.initString.funcN`), or
+`msg:<panic message class>` when the trace has none; `std:header-method-missing-at-runtime` for
+every "tried to call an invalid method" panic (per-method counts are in the distribution).
+
+Execution: corpus lines and calls that may legitimately be slow (huge Int into ** * << rjust grow ...)
+run alone and first; the other calls go through batch files that only act as a filter (see
+batch_program) - every call that is not provably clean there is re-run alone and that run is the
+one classified.  Quick tier: 250 calls, 10 s timeout, no new round after 25 s (calls not run are
+counted in `not_run_time_budget`); thorough: 20000 calls, 20 s timeout, 900 s.
 
 Corpus file corpus/C01.std.txt: `Receiver#method<TAB>call source` (label optional), replayed
 first on every run through the same wrapper.
@@ -27,6 +38,11 @@ STREAM = "c01.std"
 HEADERS = os.path.join(vlib.REPO, "headers")
 CORPUS = os.path.join(vlib.ROOT, "corpus", "C01.std.txt")
 ELK_MODULE = "github.com/elk-language/elk/"
+# "tried to call an invalid method: <nil> (:name) of class: ..." = the header declares a method (usually through an
+# included mixin: Collection::Base#remove_all, Iterable::FiniteBase#take on HashMap, Value#=~ on ranges ...) that
+# the native class does not have at run time.  All of them are ONE finding class:
+MISSING_KEY = "std:header-method-missing-at-runtime"
+CHILD_ENV = {"GOMAXPROCS": "2"}     # 16 parallel runs x 16 GC workers each only fight for the cores
 MEM_LIMIT_KB = 2000000      # ulimit -v for every run: a huge allocation ends as a clean OOM, not a dead machine
 TIMEOUT_S = 20
 
@@ -42,11 +58,15 @@ RULE = (
     "nilable; small lists, tuples, maps, records, ranges), optional parameters sometimes omitted, operators "
     "printed infix, half of the calls with receiver/arguments first bound to locals (defeats constant folding, "
     "so both the compiler's folder and the VM are hit). Each program is `do <call>; println(r.inspect) catch e "
-    "... end` run by `elk run` under ulimit -v 2 GB and a 20 s timeout; the corpus of known crashers is replayed "
+    "... end` run by `elk run` under ulimit -v 2 GB and a timeout (10 s quick tier, 20 s thorough); the corpus of known crashers is replayed "
     "first. A program the checker rejects is counted as rejected and is not an evaluation. GATE: a Go panic, a "
     "Go fatal error other than out-of-memory, or death by signal, each reported once per canonical class "
-    "std:<Receiver>#<method>:<first elk frame after the panic>. Timeouts, out-of-memory and the unrelated "
-    "'tried to call an invalid method' VM defect are counted, not gated."
+    "std:<Receiver>#<method>:<first elk frame after the panic>; the panic 'tried to call an invalid method' (a method "
+    "the header declares but the native class lacks) is one class, std:header-method-missing-at-runtime, with "
+    "per-method counts in the distribution. Timeouts and out-of-memory are counted, not gated. Calls are first "
+    "filtered through batch files (10 calls, each in its own do/catch with markers); only calls whose end marker "
+    "is printed by a process that exits 0 are taken from a batch, every other call is re-run alone and that run "
+    "is the one classified."
 )
 
 # ------------------------------------------------------------------ header parser
@@ -543,9 +563,8 @@ class Gen:
             if name == "HashRecord":
                 immut = True
             if n == 0 and not immut:
-                ks, vs = self.type_src(args[0], env), self.type_src(args[1], env)
-                if ks and vs:
-                    return "HashMap::[%s, %s]()" % (ks, vs)
+                # no empty-map expression: `HashMap::[K, V]()` builds an object no HashMap native accepts
+                # (replayed from the corpus as HashMap#init), and a bare `{}` has no element types
                 ents = ["%s => %s" % (self.gen(args[0], env, False, depth + 1), self.gen(args[1], env, False, depth + 1))]
             return ("%{" if immut else "{") + ", ".join(ents) + "}"
         if name == "Pair" and len(args) == 2:
@@ -576,14 +595,14 @@ def receiver_families():
                               "[1, 1, 1, 1, 1, 1, 1, 1, 1]"]),
             ({"Val": "String"}, ['["a", "b"]', '[""]', "ArrayList::[String]()"]),
             ({"Val": "Float"}, ["[Float::NAN, 0.0, -0.0]"]),
-            ({"Val": "Int?"}, ["[nil, 1]"]),
+            ({"Val": "Int?"}, ["var e0: ArrayList[Int?] = [nil, 1] ;; e0"]),
         ]),
         ("HashMap", "HashMap", [
-            ({"Key": "Int", "Value": "String"}, ['{1 => "a", 2 => "b"}', "HashMap::[Int, String]()",
+            ({"Key": "Int", "Value": "String"}, ['{1 => "a", 2 => "b"}', "var e0: HashMap[Int, String] = {} ;; e0",
                                                  '{9223372036854775808 => "", -1 => "x"}']),
-            ({"Key": "String", "Value": "Int"}, ['{"a" => 1}', '{"" => 0, "é" => 2 ** 64}', "HashMap::[String, Int]()"]),
+            ({"Key": "String", "Value": "Int"}, ['{"a" => 1}', '{"" => 0, "é" => 18446744073709551616}', "var e0: HashMap[String, Int] = {} ;; e0"]),
             ({"Key": "Float", "Value": "Int"}, ["{Float::NAN => 1, 0.0 => 2, -0.0 => 3}"]),
-            ({"Key": "Int?", "Value": "Int?"}, ["{nil => nil, 1 => nil}"]),
+            ({"Key": "Int?", "Value": "Int?"}, ["var e0: HashMap[Int?, Int?] = {nil => nil, 1 => nil} ;; e0"]),
         ]),
         ("Regex", "Regex", [({}, REGEX_POOL)]),
     ]
@@ -668,8 +687,6 @@ def build_targets(classes, g):
                 if m.closure:
                     skip("closure-parameter", fam, name)
                     continue
-                if name in ("class",):
-                    pass
                 okv = []
                 bad = None
                 for renv, srcs in variants:
@@ -711,6 +728,10 @@ def gen_call(g, t):
     g.big = False
     renv, srcs = g.r.choice(t.variants)
     recv = g.r.choice(srcs)
+    prelude = []
+    if " ;; " in recv:          # receiver that needs a typed local first
+        pre, recv = recv.split(" ;; ", 1)
+        prelude = [pre]
     if t.fam == "Int" and abs(int(recv)) >= 2 ** 31:
         g.big = True
     env = method_env(g, t.m, t.menv, renv, False)
@@ -727,11 +748,13 @@ def gen_call(g, t):
     args = ["nil" if a is None else a for a in args]
     ret = t.m.ret
     has_value = ret is not None and ret.strip() not in ("void", "never", "")
+    if has_value and re.search(r"\?|\bnil\b|\bany\b", subst(ret, env)):
+        has_value = "nilable"       # `r.inspect` does not type-check on a nilable: print it under `if r`
     if g.r.chance(1, 2):
         stmts = ["v0 := " + recv] + ["v%d := %s" % (i + 1, a) for i, a in enumerate(args)]
         call = render_call(t.m.name, "v0", ["v%d" % (i + 1) for i in range(len(args))], len(params))
-        return "; ".join(stmts + [call]), has_value
-    return render_call(t.m.name, paren(recv), [paren(a) for a in args], len(params)), has_value
+        return "; ".join(prelude + stmts + [call]), has_value
+    return "; ".join(prelude + [render_call(t.m.name, paren(recv), [paren(a) for a in args], len(params))]), has_value
 
 
 # ------------------------------------------------------------------ programs, classification, keys
@@ -777,18 +800,38 @@ def split_stmts(src):
 ASSIGN_RE = re.compile(r"^(?:(?:var|val|const)\s+\w+|\w+\s*(?::=|=(?!=|~)|[-+*/%&|^]=)|\w+\[.*\]\s*=(?!=|~))")
 
 
-def program(src, has_value=None):
+def program(src, has_value=None, tag=""):
+    """the wrapper around one call; tag distinguishes the calls of a batch file"""
     stmts = split_stmts(src)
     last = stmts[-1] if stmts else "nil"
     if has_value is None:
         has_value = not ASSIGN_RE.match(last)
+    mark = (" " + tag) if tag != "" else ""
     lines = ["do"] + ["  " + s for s in stmts[:-1]]
-    if has_value:
+    if has_value == "nilable":
+        lines += ["  r := " + last, "  if r", "    println(r.inspect)", "  end"]
+    elif has_value:
         lines += ["  r := " + last, "  println(r.inspect)"]
     else:
         lines += ["  " + last]
-    lines += ['  println("c01:ok")', "catch e", '  println("c01:err")', "end", ""]
+    lines += ['  println("c01:ok%s")' % mark, "catch e", '  println("c01:err%s")' % mark, "end", ""]
     return "\n".join(lines)
+
+
+def batch_program(members):
+    """several calls in one file, each in its own do/catch with begin/end markers. Only used as a FILTER:
+    calls whose end marker appears while the process exits 0 are clean (ok / caught Elk error); the first
+    call without an end marker is re-run alone (that run is the one that is classified), the calls after it
+    go into a later batch; a batch that printed no marker at all (rejected by the checker, or the compiler
+    itself panicked) is re-run call by call."""
+    parts = []
+    for j, c in enumerate(members):
+        parts.append('println("c01:b %d")' % j)
+        parts.append(program(c["src"], c["hv"], tag=str(j)))
+    return "\n".join(parts)
+
+
+MARK_RE = re.compile(r"^c01:(ok|err|b) (\d+)$", re.M)
 
 
 def first_panic_line(out):
@@ -857,7 +900,7 @@ def classify(rc, out):
     if "[FAIL]" in out and "panic:" not in out and "fatal error:" not in out and "goroutine " not in out:
         return "rejected"
     if "tried to call an invalid method" in out:
-        return "foreign_invalid_method"
+        return "missing_method"
     if rc == 124:
         return "timeout"
     if ("fatal error:" in out or "runtime:" in out) and OOM_RE.search(out):
@@ -902,6 +945,12 @@ def limited_elk(elk, workdir):
 
 # ------------------------------------------------------------------ the stream
 
+BATCH = 10
+MAX_ROUNDS = 3        # batch rounds; afterwards whatever is left runs alone
+# calls that may legitimately run for long / allocate a lot when given a huge Int: never batched, started first
+HEAVY_METHODS = {"**", "*", "repeat", "rjust", "ljust", "grow", "<<", ">>", "<<<", ">>>", "times"}
+
+
 def run_std(ctx, elk):
     t0 = time.time()
     rng = ctx.rng(STREAM)
@@ -912,14 +961,15 @@ def run_std(ctx, elk):
     os.makedirs(work, exist_ok=True)
     runner = limited_elk(elk, work)
 
-    cases = []          # (id, label, source, has_value, big, origin)
+    cases = []
     seen = set()
     for i, (label, src) in enumerate(read_corpus()):
-        cases.append(("k%04d" % i, label, src, None, True, "corpus"))
+        cases.append(dict(id="k%04d" % i, label=label, src=src, hv=None, heavy=True, origin="corpus"))
         seen.add(src)
     n_corpus = len(cases)
 
-    n = ctx.n(600, 20000)
+    n = ctx.n(250, 20000)
+    timeout = ctx.n(10, TIMEOUT_S)
     gen_fail = 0
     if targets:
         # schedule: every callable method once per round (methods with parameters three times), shuffled
@@ -942,24 +992,95 @@ def run_std(ctx, elk):
             if src in seen:
                 continue
             seen.add(src)
-            cases.append(("g%06d" % made, "%s#%s" % (t.fam, t.m.name), src, hv, g.big, "gen"))
+            cases.append(dict(id="g%06d" % made, label="%s#%s" % (t.fam, t.m.name), src=src, hv=hv,
+                              heavy=g.big and t.m.name in HEAVY_METHODS, origin="gen"))
             made += 1
     else:
         ctx.broke("c01.std: no callable std method found in the headers", "; ".join(problems)[:2000])
 
-    # corpus first, then calls carrying a huge Int (the likely 20 s timeouts overlap with everything else)
-    order = cases[:n_corpus] + sorted(cases[n_corpus:], key=lambda c: (not c[4], c[0]))
-    progs = [(c[0], program(c[2], c[3])) for c in order]
-    res = vlib.run_programs(runner, progs, work, workers=16, timeout=TIMEOUT_S)
+    # ---- execution: corpus and heavy calls alone (started first so that 20 s timeouts overlap with the rest),
+    # everything else through batch files as a filter (see batch_program); every non-clean call runs alone
+    final = {}          # case id -> (class, rc, out) - out kept only for non-clean classes
+    singles = [c for c in cases if c["heavy"]]
+    pending = [c for c in cases if not c["heavy"]]
+    retried = set()
+    stats = dict(processes=0, batch_files=0, single_runs=0, rounds=0, batch_files_without_markers=0,
+                 batch_files_timed_out_before_start=0)
+    rnd = 0
+    budget = ctx.n(25, 900)     # seconds after which no further round is started (what is left is counted as dropped)
+    dropped = 0
+    while singles or pending:
+        if rnd > 0 and time.time() - t0 > budget:
+            dropped = len(singles) + len(pending)
+            for c in singles + pending:
+                final[c["id"]] = ("dropped_over_budget", 0, "")
+            break
+        batches = []
+        if rnd < MAX_ROUNDS:
+            for i in range(0, len(pending), BATCH):
+                batches.append(pending[i:i + BATCH])
+        else:
+            singles += pending
+        pending = []
+        progs = [(c["id"], program(c["src"], c["hv"])) for c in singles]
+        progs += [("b%d_%05d" % (rnd, i), batch_program(b)) for i, b in enumerate(batches)]
+        stats["processes"] += len(progs)
+        stats["batch_files"] += len(batches)
+        stats["single_runs"] += len(singles)
+        stats["rounds"] += 1
+        res = vlib.run_programs(runner, progs, work, workers=16, timeout=timeout, env=CHILD_ENV)
+        nxt = []
+        for c in singles:
+            rc, out, _ = res[c["id"]]
+            cls = classify(rc, out)
+            if cls == "timeout" and c["id"] not in retried and (c["origin"] == "corpus" or (not c["heavy"] and not ctx.quick())):
+                retried.add(c["id"])        # most likely machine load: once more
+                nxt.append(c)
+                continue
+            final[c["id"]] = (cls, rc, out if cls not in ("ok", "elk_error") else "")
+        for i, b in enumerate(batches):
+            rc, out, _ = res["b%d_%05d" % (rnd, i)]
+            ended = {}
+            for m in MARK_RE.finditer(out):
+                if m.group(1) != "b":
+                    ended[int(m.group(2))] = m.group(1)
+            clean_exit = rc == 0 and "panic:" not in out and "fatal error:" not in out and "[FAIL]" not in out
+            j = 0
+            while j < len(b) and j in ended:
+                j += 1
+            if not ended and not clean_exit:
+                begun = [int(m.group(2)) for m in MARK_RE.finditer(out) if m.group(1) == "b"]
+                if rc == 124 and not begun:
+                    stats["batch_files_timed_out_before_start"] += 1
+                    pending += b            # machine load: the file did not even start; batch again (or drop over budget)
+                    continue
+                if rc == 124:
+                    nxt.append(b[0])        # the first call was running when the time was up
+                    pending += b[1:]
+                    continue
+                stats["batch_files_without_markers"] += 1
+                nxt += b                    # rejected / compiler crashed: nothing attributable, each call alone
+                continue
+            if j == len(b) and not clean_exit:
+                j = len(b) - 1              # all markers but a bad exit: distrust the last call
+            for c in b[:j]:
+                final[c["id"]] = ("ok" if ended[b.index(c)] == "ok" else "elk_error", 0, "")
+            if j < len(b):
+                nxt.append(b[j])
+                pending += b[j + 1:]
+        singles = nxt
+        rnd += 1
 
     outcomes, per_recv, fails, foreign = {}, {}, {}, {}
     executed = set()
     evaluations = 0
     rejected = 0
     rejected_examples = []
-    for cid, label, src, hv, big, origin in cases:
-        rc, out, _ = res[cid]
-        cls = classify(rc, out)
+    for c in cases:
+        cls, rc, out = final[c["id"]]
+        src, label, origin = c["src"], c["label"], c["origin"]
+        if cls == "dropped_over_budget":
+            continue
         if cls == "rejected":
             rejected += 1
             if len(rejected_examples) < 5 and len(src) < 200:
@@ -970,8 +1091,15 @@ def run_std(ctx, elk):
         outcomes[cls] = outcomes.get(cls, 0) + 1
         fam = label.split("#", 1)[0]
         per_recv[fam] = per_recv.get(fam, 0) + 1
-        if cls == "foreign_invalid_method":
+        if cls == "missing_method":
             foreign[label] = foreign.get(label, 0) + 1
+            f = fails.get(MISSING_KEY)
+            if f is None:
+                fails[MISSING_KEY] = dict(count=1, src=src, cls="go_panic", line=first_panic_line(out), origin=origin)
+            else:
+                f["count"] += 1
+                if f["origin"] != "corpus" and origin == "corpus":
+                    f.update(src=src, line=first_panic_line(out), origin=origin)
         if cls in ("go_panic", "go_fatal", "signal"):
             site = panic_site(out) if cls != "signal" or "goroutine " in out else "signal:%d" % (-rc)
             key = "std:%s:%s" % (label, site)
@@ -982,13 +1110,20 @@ def run_std(ctx, elk):
                 f["count"] += 1
                 if f["origin"] != "corpus" and (origin == "corpus" or len(src) < len(f["src"])):
                     f.update(src=src, cls=cls, line=first_panic_line(out), origin=origin)
+    try:        # per-case log of the last run, for diagnosis only
+        with open(os.path.join(work, "last_run.tsv"), "w", encoding="utf-8") as fh:
+            for c in cases:
+                src = c["src"]
+                fh.write("%s\t%s\t%s\t%s\n" % (c["id"], final[c["id"]][0], c["label"], src if len(src) < 400 else src[:400] + "..."))
+    except OSError:
+        pass
     for key in sorted(fails):
         f = fails[key]
         ctx.fail(key, "%s -> %s: %s" % (f["src"][:300], f["cls"], f["line"]), stream=STREAM, case=f["src"],
                  impl=f["line"], model="no Go panic/fatal",
                  oracle="a type-checked std call must not kill the host process")
 
-    short = [c[2] for c in cases[n_corpus:] if c[2] in executed and len(c[2]) < 120]
+    short = [c["src"] for c in cases[n_corpus:] if c["src"] in executed and len(c["src"]) < 120]
     samples = []
     if short:
         for k in (0, len(short) // 2, len(short) - 1):
@@ -1008,7 +1143,10 @@ def run_std(ctx, elk):
         "skipped_examples": {k: sorted(set(v))[:6] for k, v in sorted(skipped.items())},
         "generator_exceptions": gen_fail,
         "failing_keys": {k: fails[k]["count"] for k in sorted(fails)},
-        "foreign_invalid_method_calls": dict(sorted(foreign.items())),
+        "header_methods_missing_at_runtime": dict(sorted(foreign.items())),
+        "timeouts_retried_once": len(retried),
+        "not_run_time_budget": dropped,
+        "execution": stats,
         "wall_s": round(time.time() - t0, 1),
     }
     ctx.stream(STREAM, evaluations, len(executed), RULE, samples, dist)
